@@ -11,6 +11,7 @@ CONSTANTS
   KillCarriesState = TRUE
   Once = FALSE
   Undecodable = {}
+  AllowLocalDecodeKill = TRUE
 CONSTRAINT Progress
 INVARIANTS
   OrderOk PostStopOnlyGraceful NoOverlap NoStartAfterKill NoHandlerAfterStop
